@@ -61,7 +61,7 @@ MANIFEST = {
             "(b1o.<order>: the final block early, again before the gap is filled, a block after the end), and hand-built Block1 "
             "transfers to the UNKNOWN resource alone and interleaved with a transfer to /put in fixed and generated orders "
             "(b1u.<pairs>) are run on "
-            "the real code with every single allocation request failing (about 2500 runs; thorough: every pair, capped at 40000 per scenario, 1500 per generated order), "
+            "the real code with every single allocation request failing (about 3600 runs; thorough: every pair, capped at 40000 per scenario, 1500 per generated order, 8000 / 6000 for oscobs / echo), "
             "each followed by a canary exchange on the same contexts, and "
             "judged by ASan/UBSan, the verified ledger monitor on the REAL allocation trace, LSan, PDU-consumed evidence, the canary, "
             "and SESSION-REFERENCE ACCOUNTING after the canary: every session's reference count equals the number of its holders "
@@ -127,7 +127,7 @@ RULE = ("(1) helper-layer scripts `ahelp k1 k2 <ops>`: random sequences (4..16 c
         "5 generated orders with repeated blocks; thorough 6), b1u.<pairs> (hand-built Block1 transfers to the unknown resource "
         "and to /put, 2 fixed + 2 generated interleavings, thorough 4: the unknown-resource transfer first or second, final "
         "block early, repeats, the /put transfer complete or left unfinished): every single failing request index k (quick and thorough) and pairs (k, k2) (quick: a "
-        "seeded sample of 4000, thorough: every pair of a scenario up to 40000 per scenario, 1500 per generated order; a seeded sample beyond), each "
+        "seeded sample of 4000, thorough: every pair of a scenario up to 40000 per scenario, 1500 per generated b1o / b1u order, 8000 of oscobs, 6000 of echo; a seeded sample beyond), each "
         "followed by a canary exchange, judged by ASan/UBSan, the Lean-verified ledger monitor on the real allocation trace, "
         "LSan, PDU-consumed evidence, 'a 2.xx body that claims to be complete is the body' (obsre: 'a notification is computed "
         "from the request the subscription was registered with'), the canary, and after the canary: reference count of every "
@@ -179,7 +179,10 @@ SPEC_DECISIONS = ["D18a 'the next operation with memory available succeeds' is c
 RUN_KW = {"timeout": 1800, "env": {"ASAN_OPTIONS": "detect_leaks=1:abort_on_error=0:exitcode=86:allocator_may_return_null=1:leak_check_at_exit=0"}}
 WRAPS = SIM_WRAPS + ["coap_malloc_type", "coap_realloc_type", "coap_free_type", "epoll_wait"]
 PAIR_CAP = 40000        # thorough: pairs per scenario (every pair below it, a seeded sample above)
-B1O_PAIR_CAP = 1500     # ... per generated b1o.<order> scenario (their single failures are all run)
+B1O_PAIR_CAP = 1500     # ... per generated b1o.<order> / b1u.<pairs> scenario (their single failures are all run)
+# ... of the scenarios added last (all 60 975 pairs of oscobs, echo and the two fixed b1u were run once by hand, design/C18.md):
+# a seeded sample keeps the thorough tier inside its 30 minutes
+SCN_PAIR_CAP = {"oscobs": 8000, "echo": 6000}
 SCENARIOS = ["uri", "pdu", "rr", "b1", "b2", "obs", "setup", "osc", "h508", "wkc", "b1raw", "b2raw", "obsblk", "cache", "async", "obsre",
              "obsfetch", "oscobs", "echo"]
 # parametrised scenario b1o.<digits>: the five hand-built Block1 requests of b1raw in a generated order (repeats allowed);
@@ -508,7 +511,7 @@ def generate(ctx, escalate=False):
     for s in scenarios:
         ps = [(s, a, b) for a in range(1, counts[s] + 1) for b in range(a + 1, counts[s] + 1)]
         ctx.cov["pairs_total"] += len(ps)
-        cap = B1O_PAIR_CAP if s.startswith(("b1o.", "b1u.")) else PAIR_CAP
+        cap = B1O_PAIR_CAP if s.startswith(("b1o.", "b1u.")) else SCN_PAIR_CAP.get(s, PAIR_CAP)
         if len(ps) > cap:                          # thorough: every pair of a scenario up to the cap, a seeded sample beyond
             ps = rng.sample(ps, cap)
         pairs += ps
